@@ -4,9 +4,8 @@
                   that every report block is attributed to the case that triggered it, with the
                   same signature the runner computes (runner.parse_sanitizer_log).
 * Sandbox       - runs cases in *forked grandchildren* of a clean batch process: a segfault
-                  loses one case, heap damage after a WRITE overflow stays contained, and every
-                  report is the first of its process (ASan's suppress_equal_pcs de-duplication in
-                  halt_on_error=0 mode would otherwise hide the 2nd memcpy overflow of a process).
+                  loses one case and heap damage after a WRITE overflow stays contained (the
+                  process is replaced after such a report).
 * constants()   - #define constants parsed out of the *staged* _crypto.c.
 * Ref           - independent packet protection primitives (vf.refcrypto.Keys with raw keys).
 * Contracts     - checking proxies for aioquic.quic.crypto.AEAD / HeaderProtection (second,
@@ -27,7 +26,14 @@ import struct
 import time
 
 from .common import Result
-from .runner import parse_sanitizer_log
+
+
+def parse_sanitizer_log(text):
+    """the runner's own parser (imported on first use: the clean path never needs it), so that an
+    attributed signature is exactly the one the runner would compute for the same block"""
+    from .runner import parse_sanitizer_log as f
+
+    return f(text)
 
 # ------------------------------------------------------------------ sanitizer log
 
@@ -84,47 +90,6 @@ def report_violations(local: Result, reports, case, what_prefix=""):
 
 
 # ------------------------------------------------------------------ sandbox
-
-TUNE = {"quarantine_size_mb": "1", "thread_local_quarantine_size_kb": "16", "malloc_context_size": "0", "suppress_equal_pcs": "0"}
-
-
-def asan_options() -> dict:
-    out = {}
-    for kv in os.environ.get("ASAN_OPTIONS", "").split(":"):
-        if "=" in kv:
-            k, v = kv.split("=", 1)
-            out[k] = v
-    return out
-
-
-def asan_tuned() -> bool:
-    have = asan_options()
-    return all(k in have for k in TUNE)
-
-
-def maybe_reexec():
-    """The interpreter runs with PYTHONMALLOC=malloc under the preloaded ASan runtime.  With the
-    default 256 MB quarantine and 30-frame allocation stacks every Python object allocation costs
-    microseconds (measured: 15x slower harness), and suppress_equal_pcs=1 hides the second report
-    that comes from the same pc (all memcpy overflows share one).  Neither option affects the
-    red-zone checks this property needs, so when the runner did not pass them, re-execute the
-    same `python -m vf.child ...` command line in place (same pid, same log file) with them added."""
-    import sys
-
-    if "asan" not in os.environ.get("LD_PRELOAD", "") or asan_tuned() or os.environ.get("VF_C04_REEXEC"):
-        return
-    argv = sys.argv
-    if len(argv) < 4 or os.path.basename(argv[0]) != "child.py":
-        return
-    have = asan_options()
-    extra = ":".join("%s=%s" % (k, v) for k, v in TUNE.items() if k not in have)
-    env = dict(os.environ)
-    env["ASAN_OPTIONS"] = (env.get("ASAN_OPTIONS", "") + ":" + extra).strip(":")
-    env["VF_C04_REEXEC"] = "1"
-    sys.stdout.flush()
-    sys.stderr.flush()
-    os.execve(sys.executable, [sys.executable, "-m", "vf.child"] + argv[1:4], env)
-
 
 def _needs_fresh_process(reports) -> bool:
     """after a WRITE overflow / SEGV / unknown kind the heap of this process may be damaged"""
